@@ -455,6 +455,30 @@ impl Prop for C10 {
         let mut c = build_cli_case(ch, cx, 4, true);
         c.opts.dry_run = true;
         c.opts.verbosity = ch.pick(&["-q", "", "-v", "-vv"]).to_string();
+        // what an earlier, undone push may have left behind: .pc/<patch>/ directories of patches that are not applied
+        if ch.chance(1, 3) {
+            for m in &c.ws.metas {
+                if ch.chance(1, 2) {
+                    c.ws.spec.dirs.push(format!(".pc/{}/stale-dir", m.name));
+                }
+            }
+            c.ws.feat.push("stale-pc-directories".into());
+        }
+        // a dangling symbolic link where a patch is going to create a file
+        if ch.chance(1, 4) {
+            let mut k = 0;
+            for m in &c.ws.metas {
+                for op in &m.ops {
+                    if op.kind == "create" && op.fail_reason.is_none() && !c.ws.states[0].files.contains_key(&op.new_path) && !c.ws.spec.symlinks.iter().any(|(p, _)| p == &op.new_path) && k < 2 {
+                        c.ws.spec.symlinks.push((op.new_path.clone(), format!("dangling-target-{}", k)));
+                        k += 1;
+                    }
+                }
+            }
+            if k > 0 {
+                c.ws.feat.push("dangling-symlink-at-a-file-to-create".into());
+            }
+        }
         c
     }
     fn check(&self, case: &CliCase, cx: &mut CaseCtx) -> Verdict {
@@ -573,6 +597,22 @@ impl Prop for C14 {
             ws.states.truncate(1);
             ws.fail_at = None;
             ws.feat.push("empty-series".into());
+        }
+        // a patch file behind the failing patch that cannot be loaded (a single-threaded run never looks at it, a
+        // parallel run loads everything first): whatever the outcome is, the options must not change it
+        if let Some(j) = ws.fail_at {
+            if j + 1 < ws.metas.len() && ch.chance(1, 5) {
+                let k = ch.range(j + 1, ws.metas.len() - 1);
+                let name = ws.metas[k].name.clone();
+                if ch.chance(1, 2) {
+                    ws.spec.patches.retain(|(nm, _)| nm != &name);
+                } else {
+                    for p in ws.spec.patches.iter_mut().filter(|(nm, _)| nm == &name) {
+                        p.1 = crate::bytes::B::new("--- a/x\n+++ b/x\n@@ -1 +1 @@\n-a\n");
+                    }
+                }
+                ws.feat.push("unloadable-patch-behind-the-failing-one".into());
+            }
         }
         let mut base = gen_opts(ch, true);
         base.verbosity = "-q".into();
